@@ -301,7 +301,7 @@ func checkC08(w *World) {
 	w.floor(P, "R08.5", 1)
 
 	// shared rules: the evaluator must read the tree as the grammar structures it
-	w.include(P, "C11", "R11.2", "R11.3") // QName / NCName tokenisation incl. names that spell an axis, node type or operator
+	w.include(P, "C11", "R11.2", "R11.3")                    // QName / NCName tokenisation incl. names that spell an axis, node type or operator
 	w.include(P, "C01", "R01.4", "R01.7", "R01.9", "R01.14") // abbreviated forms equal their expansions (selector and principal node type); absolute paths
 	w.spanTextTrimmed(P, f)
 	w.include(P, "C02", "R02.4", "R02.8") // operands/steps threaded as the production shape requires, nothing skipped
